@@ -45,6 +45,12 @@ def sched_jobs(tier, seed, gen=None, selections=False, faults=False, fault_rate=
             jobs.append(dict(kind="sched", mode="stress", n_cases=max(20, cases // 4), reps=2, gen=gen, selections=selections,
                              faults=faults, fault_rate=fault_rate, flavour=flavour, **_seeds(seed, k)))
             k += 1
+    # process-wide defaults taken from the environment (read by tawazi.config at import): what a declaration leaves unsaid
+    # means something else in these worker processes
+    envs = [None, {"TAWAZI_DEFAULT_RESOURCE": "async-thread"}, {"TAWAZI_IS_SEQUENTIAL": "true"}, {"TAWAZI_DEFAULT_RESOURCE": "main-thread"}]
+    for i, jb in enumerate(jobs):
+        if envs[i % len(envs)]:
+            jb["env"] = envs[i % len(envs)]
     if dfs:
         g2 = dict(gen)
         g2.update(dfs_gen or {})
